@@ -118,6 +118,17 @@ impl Ty {
             Ty::Enum(n, _) => n.to_string(),
         }
     }
+    pub fn needs_map(&self) -> bool {
+        match self {
+            Ty::Prim(_) => false,
+            Ty::Map(_) => true,
+            Ty::Option(t) | Ty::Vec(t) => t.needs_map(),
+            Ty::Result(e, t) => e.needs_map() || t.needs_map(),
+            Ty::Tuple(ts) => ts.iter().any(|t| t.needs_map()),
+            Ty::Struct(_, _, fs) => fs.iter().any(|f| f.1.needs_map()),
+            Ty::Enum(_, vs) => vs.iter().any(|v| v.2.iter().any(|f| f.1.needs_map())),
+        }
+    }
     pub fn depth(&self) -> u32 {
         match self {
             Ty::Prim(_) => 0,
@@ -592,86 +603,101 @@ impl Ty {
         }
     }
 
-    /// A Gluon expression that takes the value bound to `x` apart with Gluon's own eliminators
-    /// (match, field access, array indexing) and builds it again with Gluon's own constructors.
-    pub fn rebuild(&self, x: &str, fresh: &mut u32) -> String {
+    /// Gluon code that takes the value bound to `x` apart with Gluon's own eliminators (match,
+    /// field access, array indexing) and builds it again with Gluon's own constructors.  Appends
+    /// `let` lines at indentation `ind` to `out` and returns an atomic expression for the result.
+    pub fn rebuild(&self, x: &str, ind: usize, out: &mut String, fresh: &mut u32) -> String {
+        let p = " ".repeat(ind);
         match self {
             Ty::Prim(_) => x.to_string(),
             Ty::Option(t) => {
                 let y = var(fresh, "o");
-                format!("(match {} with | Some {} -> Some {} | None -> None)", x, y, t.rebuild(&y, fresh))
+                let res = var(fresh, "v");
+                out.push_str(&format!("{p}let {res} =\n{p}    match {x} with\n{p}    | Some {y} ->\n"));
+                let a = t.rebuild(&y, ind + 8, out, fresh);
+                out.push_str(&format!("{p}        Some {a}\n{p}    | None -> None\n"));
+                res
             }
             Ty::Result(e, t) => {
                 let y = var(fresh, "r");
                 let z = var(fresh, "r");
-                format!("(match {} with | Ok {} -> Ok {} | Err {} -> Err {})", x, y, t.rebuild(&y, fresh), z, e.rebuild(&z, fresh))
+                let res = var(fresh, "v");
+                out.push_str(&format!("{p}let {res} =\n{p}    match {x} with\n{p}    | Ok {y} ->\n"));
+                let a = t.rebuild(&y, ind + 8, out, fresh);
+                out.push_str(&format!("{p}        Ok {a}\n{p}    | Err {z} ->\n"));
+                let b = e.rebuild(&z, ind + 8, out, fresh);
+                out.push_str(&format!("{p}        Err {b}\n"));
+                res
             }
             Ty::Vec(t) => {
                 let go = var(fresh, "go");
                 let i = var(fresh, "i");
                 let acc = var(fresh, "acc");
                 let e = var(fresh, "e");
-                format!(
-                    "(let {go} {i} {acc} = if {i} #Int== array_prim.len {x} then {acc} else (let {e} = array_prim.index {x} {i} in {go} ({i} #Int+ 1) (array_prim.append {acc} [{body}])) in {go} 0 [])",
-                    go = go,
-                    i = i,
-                    acc = acc,
-                    x = x,
-                    e = e,
-                    body = t.rebuild(&e, fresh)
-                )
+                let res = var(fresh, "v");
+                out.push_str(&format!(
+                    "{p}let {go} {i} {acc} =\n{p}    if {i} #Int== array_prim.len {x} then {acc}\n{p}    else\n{p}        let {e} = array_prim.index {x} {i}\n"
+                ));
+                let a = t.rebuild(&e, ind + 8, out, fresh);
+                out.push_str(&format!("{p}        {go} ({i} #Int+ 1) (array_prim.append {acc} [{a}])\n{p}let {res} = {go} 0 []\n"));
+                res
             }
             Ty::Map(t) => {
                 let go = var(fresh, "mgo");
                 let m = var(fresh, "m");
                 let (k, v, l, r) = (var(fresh, "k"), var(fresh, "v"), var(fresh, "l"), var(fresh, "rr"));
-                format!(
-                    "(let {go} {m} = match {m} with | Tip -> Tip | Bin {k} {v} {l} {r} -> Bin {k} {body} ({go} {l}) ({go} {r}) in {go} {x})",
-                    go = go,
-                    m = m,
-                    k = k,
-                    v = v,
-                    l = l,
-                    r = r,
-                    x = x,
-                    body = t.rebuild(&v, fresh)
-                )
+                let res = var(fresh, "v");
+                out.push_str(&format!("{p}let {go} {m} =\n{p}    match {m} with\n{p}    | Tip -> Tip\n{p}    | Bin {k} {v} {l} {r} ->\n"));
+                let a = t.rebuild(&v, ind + 8, out, fresh);
+                out.push_str(&format!("{p}        Bin {k} {a} ({go} {l}) ({go} {r})\n{p}let {res} = {go} {x}\n"));
+                res
             }
             Ty::Tuple(ts) => {
-                let parts: Vec<String> = ts.iter().enumerate().map(|(i, t)| field_rebuild(t, x, &format!("_{}", i), fresh)).collect();
+                let parts: Vec<String> = ts.iter().enumerate().map(|(i, t)| field_rebuild(t, x, &format!("_{}", i), ind, out, fresh)).collect();
                 format!("({})", parts.join(", "))
             }
             Ty::Struct(_, Kind::Unit, _) => "()".to_string(),
-            Ty::Struct(_, Kind::Tuple, fs) if fs.len() == 1 => fs[0].1.rebuild(x, fresh),
+            Ty::Struct(_, Kind::Tuple, fs) if fs.len() == 1 => fs[0].1.rebuild(x, ind, out, fresh),
             Ty::Struct(_, Kind::Tuple, fs) => {
-                let parts: Vec<String> = fs.iter().enumerate().map(|(i, f)| field_rebuild(&f.1, x, &format!("_{}", i), fresh)).collect();
+                let parts: Vec<String> = fs.iter().enumerate().map(|(i, f)| field_rebuild(&f.1, x, &format!("_{}", i), ind, out, fresh)).collect();
                 format!("({})", parts.join(", "))
             }
             Ty::Struct(_, Kind::Named, fs) => {
-                let parts: Vec<String> = fs.iter().map(|(n, t)| format!("{} = {}", n, field_rebuild(t, x, n, fresh))).collect();
+                let parts: Vec<String> = fs.iter().map(|(n, t)| format!("{} = {}", n, field_rebuild(t, x, n, ind, out, fresh))).collect();
                 format!("{{ {} }}", parts.join(", "))
             }
             Ty::Enum(_, vs) => {
-                let mut s = format!("(match {} with", x);
+                let res = var(fresh, "v");
+                out.push_str(&format!("{p}let {res} =\n{p}    match {x} with\n"));
                 for (vn, k, fs) in vs {
                     match k {
-                        Kind::Unit => s.push_str(&format!(" | {} -> {}", vn, vn)),
+                        Kind::Unit => out.push_str(&format!("{p}    | {vn} -> {vn}\n")),
                         Kind::Tuple => {
                             let ys: Vec<String> = fs.iter().map(|_| var(fresh, "p")).collect();
-                            let bodies: Vec<String> = fs.iter().zip(&ys).map(|(f, y)| f.1.rebuild(y, fresh)).collect();
-                            s.push_str(&format!(" | {} {} -> {} {}", vn, ys.join(" "), vn, bodies.join(" ")));
+                            out.push_str(&format!("{p}    | {vn} {} ->\n", ys.join(" ")));
+                            let bodies: Vec<String> = fs.iter().zip(&ys).map(|(f, y)| f.1.rebuild(y, ind + 8, out, fresh)).collect();
+                            out.push_str(&format!("{p}        {vn} {}\n", bodies.join(" ")));
                         }
                         Kind::Named => {
                             let y = var(fresh, "q");
-                            let parts: Vec<String> = fs.iter().map(|(n, t)| format!("{} = {}", n, field_rebuild(t, &y, n, fresh))).collect();
-                            s.push_str(&format!(" | {} {} -> {} {{ {} }}", vn, y, vn, parts.join(", ")));
+                            out.push_str(&format!("{p}    | {vn} {y} ->\n"));
+                            let parts: Vec<String> =
+                                fs.iter().map(|(n, t)| format!("{} = {}", n, field_rebuild(t, &y, n, ind + 8, out, fresh))).collect();
+                            out.push_str(&format!("{p}        {vn} {{ {} }}\n", parts.join(", ")));
                         }
                     }
                 }
-                s.push(')');
-                s
+                res
             }
         }
+    }
+
+    pub fn rebuild_body(&self) -> String {
+        let mut out = String::from("\n");
+        let mut fresh = 0;
+        let a = self.rebuild("x", 4, &mut out, &mut fresh);
+        out.push_str(&format!("    {}", a));
+        out
     }
 
     /// Gluon program whose value is a function `gty -> gty` built from `body` over the argument `x`
@@ -680,7 +706,9 @@ impl Ty {
         self.decls(&mut decls);
         let mut s = String::new();
         s.push_str("let { Bool, Option, Result, Ordering } = import! std.types\n");
-        s.push_str("let { Map } = import! std.map\n");
+        if self.needs_map() {
+            s.push_str("let { Map } = import! std.map\n");
+        }
         s.push_str("let array_prim = import! std.array.prim\n");
         for d in &decls {
             s.push_str(&d.1);
@@ -696,8 +724,8 @@ fn var(fresh: &mut u32, p: &str) -> String {
     format!("{}{}", p, *fresh)
 }
 
-fn field_rebuild(t: &Ty, x: &str, field: &str, fresh: &mut u32) -> String {
-    *fresh += 1;
-    let y = format!("fl{}", *fresh);
-    format!("(let {} = {}.{} in {})", y, x, field, t.rebuild(&y, fresh))
+fn field_rebuild(t: &Ty, x: &str, field: &str, ind: usize, out: &mut String, fresh: &mut u32) -> String {
+    let y = var(fresh, "fl");
+    out.push_str(&format!("{}let {} = {}.{}\n", " ".repeat(ind), y, x, field));
+    t.rebuild(&y, ind, out, fresh)
 }
